@@ -479,8 +479,12 @@ class WsgiApplication(HttpBase):
         # here before serialization as the user function can also set output
         # protocol. Is there a better way?
         if is_generator:
-            first_obj = next(g)
-            p_ctx.out_object = ( chain((first_obj,), g), )
+            try:
+                first_obj = next(g)
+            except StopIteration:
+                pass  # the generator is empty; leave it in place, exhausted.
+            else:
+                p_ctx.out_object = ( chain((first_obj,), g), )
 
         if p_ctx.transport.resp_code is None:
             p_ctx.transport.resp_code = HTTP_200
